@@ -1213,7 +1213,7 @@ def op_c18(case):
             except BaseException as e:  # noqa: BLE001
                 outcome = "exc:" + type(e).__name__
             out.append({"tokens": ntok if ntok is not None else max(1, len(src) // 2), "work": cnt[0], "outcome": outcome})
-            if out[-1]["work"] > budget or outcome == "timeout":
+            if out[-1]["work"] > max(budget, 1500 * out[-1]["tokens"]) or outcome == "timeout":
                 break  # larger sizes of a family that already exploded are not run
     finally:
         for n, f in orig.items():
